@@ -426,3 +426,27 @@ Example ex_content :
   in_half_cellb 4 [-4; 3; 0] = true /\ in_half_cellb 4 [4; 0; 0] = false /\
   bijectionb [([118], [114; 48]); ([115], [114; 49])] [[114; 49]; [114; 48]] = true.
 Proof. vm_compute. repeat split; reflexivity. Qed.
+
+(* ---------- C30: transformation files and Makefile prerequisites ---------- *)
+Theorem transfileb_sound idx flat A B : transfileb idx flat A B = true ->
+  map zlen (chemorder A) = map zlen (chemorder B) /\
+  (forall f, In f flat -> 0 <= f < zlen (concat (chemorder A))) /\
+  map (fun f => nth (Z.to_nat f) (line_species (chemorder A)) (-1)) flat = line_species (chemorder B) /\
+  concat (chemorder B) = map (fun f => site_image idx (nth (Z.to_nat f) (concat (chemorder A)) 0)) flat.
+Proof.
+  unfold transfileb. intros H. repeat (apply andb_true_iff in H; destruct H as [H ?]).
+  apply zlist_eqb_eq in H. apply zlist_eqb_eq in H0. apply zlist_eqb_eq in H1. rewrite forallb_forall in H2.
+  split; [exact H|]. split; [|split; assumption].
+  intros f Hf. specialize (H2 f Hf). apply andb_true_iff in H2. destruct H2 as [X Y].
+  apply Z.leb_le in X. apply Z.ltb_lt in Y. lia.
+Qed.
+
+Theorem depsb_sound deps files : depsb deps files = true -> forall d, In d deps -> In d files.
+Proof. unfold depsb. intros H d Hd. rewrite forallb_forall in H. apply str_mem_in, H, Hd. Qed.
+
+Example ex_transfile :
+  let A := mkSC [0; -1; 0; 1] [[0; 2]; [3]] in
+  let B := mkSC [-1; 0; 1; 0] [[3; 1]; [2]] in
+  flatten_mapping [[1; 0]; [0]] = [1; 0; 2] /\ transfileb [1; 0; 3; 2] [1; 0; 2] A B = true /\
+  transfileb [1; 0; 3; 2] [0; 1; 2] A B = false /\ depsb [[1]; [2]] [[2]; [3]; [1]] = true.
+Proof. vm_compute. repeat split; reflexivity. Qed.
